@@ -188,7 +188,7 @@ def fresh_process_outputs(path, n):
     exe = vlib.build_harness()
     outs = []
     for _ in range(n):
-        p = subprocess.run([exe, "compile"], input=json.dumps({"path": path, "dumps": ["tast", "core", "mono", "lift", "anf", "go"]}) + "\n", capture_output=True, text=True, timeout=120, env=vlib.ENV)
+        p = subprocess.run([exe, "compile"], input=json.dumps({"path": path, "dumps": ["ast", "hir", "tast", "core", "mono", "lift", "anf", "go"]}) + "\n", capture_output=True, text=True, timeout=120, env=vlib.ENV)
         outs.append(p.stdout)
     return outs
 
